@@ -26,6 +26,7 @@ SInit(kind, c, iw, ow) ==
       [] kind = "Stack" -> [stk |-> <<>>, dout |-> 0, ok |-> TRUE]
       [] kind = "ClockDivider" -> [cnt |-> 0, clk |-> 0]
       [] kind = "SynchronousMemory" -> [mem |-> Zeros(Pow2(iw[1])), rd |-> 0]
+      [] kind = "DualPortSynchronousMemory" -> [mem |-> Zeros(Pow2(iw[1])), rda |-> 0, rdb |-> 0]
 
 \* optional ports: c.e / c.r = 1 when the port exists; inputs are ordered as listed in seqlib.py
 SNext(kind, c, s, iv, iw, ow) ==
@@ -88,6 +89,12 @@ SNext(kind, c, s, iv, iw, ow) ==
            \* ins: read_address, write_address, write, writedata ; read returns the content before a same-cycle write
            [mem |-> IF iv[3] # 0 THEN [s.mem EXCEPT ![iv[2] + 1] = iv[4]] ELSE s.mem,
             rd |-> s.mem[iv[1] + 1]]
+      [] kind = "DualPortSynchronousMemory" ->
+           \* ins: read_address_a, write_address_a, write_a, writedata_a, then the same four for port b.  Both reads return
+           \* the content before the writes of this cycle; two writes to one cell in one cycle: port b is applied last.
+           LET m1 == IF iv[3] # 0 THEN [s.mem EXCEPT ![iv[2] + 1] = iv[4]] ELSE s.mem
+           IN  [mem |-> IF iv[7] # 0 THEN [m1 EXCEPT ![iv[6] + 1] = iv[8]] ELSE m1,
+                rda |-> s.mem[iv[1] + 1], rdb |-> s.mem[iv[5] + 1]]
 
 SOut(kind, c, s, iv, iw, ow) ==
     CASE kind \in {"Reg", "TReg", "Counter", "StepUpCounter"} -> <<s % Pow2(ow[1])>>
@@ -103,4 +110,5 @@ SOut(kind, c, s, iv, iw, ow) ==
                [] c.dir = "both" -> IF a # s THEN 1 ELSE 0>>
       [] kind = "ClockDivider" -> <<s.clk>>
       [] kind = "SynchronousMemory" -> <<s.rd>>
+      [] kind = "DualPortSynchronousMemory" -> <<s.rda, s.rdb>>
 =============================================================================
